@@ -173,7 +173,7 @@ def nat(n):
 # tree := ('leaf', kind, params, Sp) | ('lscal', s, t) | ('rscal', s, t) | ('ssum', c, t)
 #       | ('transl', flat, t) | ('qpert', a, u|None, c, t) | ('breg', point, subgrad, t) | ('sep', t1, t2)
 LEAF_KINDS = ['l1', 'l2', 'l2sq', 'linf', 'const', 'zero', 'box', 'nonneg', 'indzero', 'ballinf', 'ball2',
-              'ball1', 'huber', 'simplex', 'groupl1', 'groupball']
+              'ball1', 'huber', 'simplex', 'groupl1', 'groupball', 'huberg', 'sumc']
 
 
 def tree_space(t):
@@ -183,6 +183,11 @@ def tree_space(t):
 
 def rand_leaf(rng, tier, kind=None):
     kind = kind or rng.choice(LEAF_KINDS)
+    if kind == 'huberg':
+        base, tag = rand_space(rng, tier, flat_only=True)
+        d = rng.choice([1, 2, 2, 3])
+        sp = Sp('odl.ProductSpace(%s, %d)' % (base.code, d))
+        return ('leaf', kind, {'m': base.n, 'd': d, 'gamma': rng.choice([0.25, 0.5, 1.0, 2.0, 0.0])}, sp)
     if kind in ('groupl1', 'groupball'):
         base, tag = rand_space(rng, tier, flat_only=True)
         while len(base.space.shape) != 1 and False:
@@ -191,11 +196,9 @@ def rand_leaf(rng, tier, kind=None):
         sp = Sp('odl.ProductSpace(%s, %d)' % (base.code, d))
         two = rng.random() < 0.6
         return ('leaf', kind, {'m': base.n, 'd': d, 'two': two}, sp)
-    sp, tag = rand_space(rng, tier, flat_only=(kind == 'huber'), power_only=kind in ('simplex', 'linf', 'ball1'),
+    sp, tag = rand_space(rng, tier, flat_only=(kind == 'huber'), power_only=kind in ('simplex', 'linf', 'ball1', 'sumc'),
                          pweights_ok=kind in ('l1', 'l2', 'l2sq', 'const', 'zero', 'box', 'nonneg', 'indzero', 'ballinf',
                                               'ball2', 'simplex', 'linf', 'ball1'))
-    while kind == 'huber' and tag == 'rn-array':     # recorded finding huber-array-weighted-space (probe)
-        sp, tag = rand_space(rng, tier, flat_only=True)
     n = sp.n
     p = {}
     if kind == 'const':
@@ -215,6 +218,8 @@ def rand_leaf(rng, tier, kind=None):
         p['gamma'] = rng.choice([0.25, 0.5, 1.0, 2.0, 0.0])
     elif kind == 'simplex':
         p['diam'] = rng.choice([1.0, 2.0, 0.5, 3.0])
+    elif kind == 'sumc':
+        p['c'] = rng.choice([1.0, 2.0, -1.5, 0.5, 4.0])
     return ('leaf', kind, p, sp)
 
 
@@ -298,6 +303,10 @@ def build(t):
             return S.GroupL1Norm(X, 2 if p['two'] else 1)
         if kind == 'groupball':
             return S.IndicatorGroupL1UnitBall(X, 2 if p['two'] else np.inf)
+        if kind == 'huberg':
+            return S.Huber(X, p['gamma'])
+        if kind == 'sumc':
+            return S.IndicatorSumConstraint(X, p['c'])
         raise ValueError(kind)
     if k == 'sep':
         return S.SeparableSum(build(t[1]), build(t[2]))
@@ -338,6 +347,8 @@ def tree_code(t):
             'simplex': 'S.IndicatorSimplex(%%s, %r)' % p.get('diam'),
             'groupl1': 'S.GroupL1Norm(%%s, %s)' % ('2' if p.get('two') else '1'),
             'groupball': 'S.IndicatorGroupL1UnitBall(%%s, %s)' % ('2' if p.get('two') else 'np.inf'),
+            'huberg': 'S.Huber(%%s, %r)' % p.get('gamma'),
+            'sumc': 'S.IndicatorSumConstraint(%%s, %r)' % p.get('c'),
         }[kind] % X
     if k == 'sep':
         return 'S.SeparableSum(%s, %s)' % (tree_code(t[1]), tree_code(t[2]))
@@ -375,6 +386,8 @@ def coq_tree(t):
             'simplex': '(FSimplex %s)' % C.q(p.get('diam', 1)),
             'groupl1': '(FGroupL1 %s %s %s)' % (nat(p.get('m', 0)), nat(p.get('d', 0)), C.b(p.get('two'))),
             'groupball': '(FGroupBall %s %s %s)' % (nat(p.get('m', 0)), nat(p.get('d', 0)), C.b(p.get('two'))),
+            'huberg': '(FHuberG %s %s %s)' % (nat(p.get('m', 0)), nat(p.get('d', 0)), C.q(p.get('gamma', 0))),
+            'sumc': '(FSumC %s)' % C.q(p.get('c', 1)),
         }[kind]
         return '(Leaf %s %s)' % (lk, w)
     if k == 'sep':
@@ -430,7 +443,7 @@ def vec_step_ok(t):
     """Can the tree's proximal take a per-point (space element) step?"""
     k = t[0]
     if k == 'leaf':
-        return t[1] in ('l1', 'l2sq', 'const', 'zero', 'box', 'nonneg', 'indzero', 'ball1', 'simplex') or \
+        return t[1] in ('l1', 'l2sq', 'const', 'zero', 'box', 'nonneg', 'indzero', 'ball1', 'simplex', 'sumc') or \
             (t[1] == 'groupl1' and not t[2]['two'])
     if k == 'sep':
         return vec_step_ok(t[1]) and vec_step_ok(t[2])
@@ -640,8 +653,7 @@ def rand_factory(rng, tier, depth, sp=None, top=True):
              'nonneg', 'kl', 'klcc']
     if top:
         kinds += ['projsimplex', 'projl1']        # plain functions, not operators: only called directly
-    if 'weighting=[' not in sp.code:
-        kinds.append('huber')
+    kinds.append('huber')
     if not forced:
         kinds += ['l1l2', 'ccl1l2']
     kind = rng.choice(kinds)
@@ -654,7 +666,7 @@ def rand_factory(rng, tier, depth, sp=None, top=True):
                 'l1(lam=%r,g=%r)@%s' % (lam, g, sp.code), sp, True)
     if kind == 'ccl1':
         return ((lambda: P.proximal_convex_conj_l1(X, lam, ge())), '(KCCL1 %s %s)' % (C.q(lam), coq_opt_vec(g)),
-                'ccl1(lam=%r,g=%r)@%s' % (lam, g, sp.code), sp, g is None)
+                'ccl1(lam=%r,g=%r)@%s' % (lam, g, sp.code), sp, True)
     if kind == 'l2':
         return ((lambda: P.proximal_l2(X, lam, ge())), '(KL2 %s %s %s)' % (w, C.q(lam), coq_opt_vec(g)),
                 'l2(lam=%r,g=%r)@%s' % (lam, g, sp.code), sp, False)
@@ -908,10 +920,6 @@ def finding_key(kind, sp):
         power = (not _is_pspace(sp.space)) or sp.space.is_power_space
     except Exception:
         pass
-    if kind == 'huber' and 'ProductSpace' in code:
-        return 'huber-product-space'
-    if kind == 'huber' and 'weighting=[' in code:
-        return 'huber-array-weighted-space'
     if kind in ('simplex', 'linf', 'ball1') and not power:
         return 'proj-simplex-nonpower-product-space'
     if kind == 'linf' and _nonunit_weights(sp):
@@ -920,8 +928,8 @@ def finding_key(kind, sp):
         return 'indicator-l1-ball-weighted-space'
     if kind == 'simplex' and _nonconst_weights(sp):
         return 'indicator-simplex-nonuniform-weights'
-    if kind == 'sumconstr':
-        return 'indicator-sum-constraint-proximal'
+    if kind in ('sumconstr', 'sumc') and _nonconst_weights(sp):
+        return 'indicator-sum-constraint-nonuniform-weights'
     if kind in ('nuclear-np.inf',):
         return 'nuclear-norm-exp-inf-proximal'
     if kind == 'nuclear-ball':
@@ -982,8 +990,6 @@ def probes(rng, tier):
         if not ok and detail and detail.startswith('f(p) =') and 'IndicatorLpUnitBall' in fcode and ', 1)' in fcode \
                 and key.startswith('opt-'):
             key = 'indicator-l1-ball-rounding-outside'     # recorded: proj_l1 has no safety margin
-        if not ok and kind == 'sumconstr' and detail and 'AttributeError' not in detail and _nonconst_weights(sp):
-            key = 'indicator-sum-constraint-nonuniform-weights'
         out.append(C.Probe(ok, key, what, optimal_replay(fcode, spec, xflat, wz), detail))
         return ok
 
@@ -999,7 +1005,7 @@ def probes(rng, tier):
                 t = rand_leaf(rng, tier, kind)
             sp = t[3]
             spec = rand_step(rng, t)
-            if k0 in ('box', 'nonneg', 'const', 'zero', 'indzero', 'ball1', 'simplex') and spec[0] == 'vec':
+            if k0 in ('box', 'nonneg', 'const', 'zero', 'indzero', 'ball1', 'simplex', 'sumc') and spec[0] == 'vec':
                 spec = ('scal', pos(rng))        # step unused by these proximals: probe with a scalar metric
             x = vec(rng, sp.n)
             fk = finding_key(k0, sp)
@@ -1019,7 +1025,7 @@ def probes(rng, tier):
             continue
         made += 1
         spec = rand_step(rng, t)
-        if spec[0] != 'scal' and any(k in ('box', 'nonneg', 'const', 'zero', 'indzero', 'ball1', 'simplex')
+        if spec[0] != 'scal' and any(k in ('box', 'nonneg', 'const', 'zero', 'indzero', 'ball1', 'simplex', 'sumc')
                                      for k in leaf_kinds(t)):
             spec = ('scal', pos(rng))
         x = vec(rng, tree_dim(t))
@@ -1057,15 +1063,13 @@ def probes(rng, tier):
     for kind in ('l1', 'l2', 'l2sq', 'ccl1', 'ccl2', 'ccl2sq', 'l1l2', 'ccl1l2', 'huber', 'box', 'linf', 'cclinf'):
         for _ in range(reps):
             sp, _tag = rand_space(rng, tier, flat_only=True)
-            if kind in ('huber',) and 'weighting=[' in sp.code:
-                continue
             if kind in ('linf', 'cclinf') and _nonunit_weights(sp):
                 continue
             n = sp.n
             lam = rng.choice([0.5, 1.0, 2.0, 3.0])
             g = vec(rng, n, lo=-6, hi=6)
             Xc = sp.code
-            vec_ok = kind in ('l1', 'l2sq', 'ccl2sq')
+            vec_ok = kind in ('l1', 'l2sq', 'ccl2sq', 'ccl1')
             nog = rng.random() < 0.35          # the g=None branches of the factories
             garg = 'None' if nog else 'unflatten(X, %r)' % (g,)
             tr = (lambda f: f) if nog else (lambda f: '(%s).translated(unflatten(X, %r))' % (f, g))
@@ -1160,7 +1164,7 @@ def probes(rng, tier):
         except Exception:
             ok = False
         out.append(C.Probe(ok, 'firm-nonexpansive-%s' % t[0], '%s: ||p1-p2||^2 <= <p1-p2, x1-x2>' % code, rp))
-    for kind in ('box', 'nonneg', 'indzero', 'ballinf', 'ball2', 'ball1', 'simplex', 'groupball'):
+    for kind in ('box', 'nonneg', 'indzero', 'ballinf', 'ball2', 'ball1', 'simplex', 'groupball', 'sumc'):
         for _ in range(reps):
             t = rand_leaf(rng, tier, kind)
             sp = t[3]
